@@ -42,7 +42,15 @@ struct MessageAdmission<'a>(&'a ActorProperties);
 
 impl Drop for MessageAdmission<'_> {
     fn drop(&mut self) {
+        #[cfg(ractor_verif)]
+        crate::verif::point("send.enq", self.0.id.pid(), 0);
         let previous = self.0.message_admission.fetch_sub(1, Ordering::AcqRel);
+        #[cfg(ractor_verif)]
+        crate::verif::point(
+            "adm.release",
+            self.0.id.pid(),
+            (previous & MESSAGE_ADMISSION_COUNT_MASK) as i64,
+        );
         debug_assert_ne!(previous & MESSAGE_ADMISSION_COUNT_MASK, 0);
         if previous & MESSAGE_ADMISSION_CLOSED != 0 && previous & MESSAGE_ADMISSION_COUNT_MASK == 1
         {
@@ -196,14 +204,20 @@ impl ActorProperties {
         TMessage: Message,
     {
         let status = self.get_status();
+        #[cfg(ractor_verif)]
+        crate::verif::point("send.status", self.id.pid(), status as i64);
         if status >= ActorStatus::Draining {
             // if currently draining, stopping or stopped: reject messages directly.
             return Err(MessagingErr::SendErr(message));
         }
 
         let Some(_admission) = self.try_admit_message() else {
+            #[cfg(ractor_verif)]
+            crate::verif::point("send.admit", self.id.pid(), 0);
             return Err(MessagingErr::SendErr(message));
         };
+        #[cfg(ractor_verif)]
+        crate::verif::point("send.admit", self.id.pid(), 1);
         let boxed = message
             .box_message(&self.id)
             .map_err(|_e| MessagingErr::InvalidActorType)?;
@@ -247,6 +261,8 @@ impl ActorProperties {
                 || state & MESSAGE_ADMISSION_COUNT_MASK != 0
                 || state & DRAIN_MARKER_SENT != 0
             {
+                #[cfg(ractor_verif)]
+                crate::verif::point("marker.cas", self.id.pid(), 0);
                 return Ok(());
             }
 
@@ -257,6 +273,8 @@ impl ActorProperties {
                 Ordering::Acquire,
             ) {
                 Ok(_) => {
+                    #[cfg(ractor_verif)]
+                    crate::verif::point("marker.cas", self.id.pid(), 1);
                     return self
                         .message
                         .send(MuxedMessage::Drain)
@@ -269,6 +287,8 @@ impl ActorProperties {
 
     pub(crate) fn drain(&self) -> Result<(), MessagingErr<()>> {
         self.close_message_admission();
+        #[cfg(ractor_verif)]
+        crate::verif::point("drain.close", self.id.pid(), 0);
         let _ = self
             .status
             .fetch_update(Ordering::SeqCst, Ordering::SeqCst, |f| {
@@ -278,6 +298,8 @@ impl ActorProperties {
                     None
                 }
             });
+        #[cfg(ractor_verif)]
+        crate::verif::point("drain.status", self.id.pid(), 0);
         self.send_drain_marker()
     }
 
@@ -342,7 +364,11 @@ impl ActorProperties {
     /// Wait for the actor to exit
     pub(crate) async fn wait(&self) {
         let notified = self.wait_handler.notified();
+        #[cfg(ractor_verif)]
+        crate::verif::point("wait.created", self.id.pid(), 0);
         if self.get_status() != ActorStatus::Stopped {
+            #[cfg(ractor_verif)]
+            crate::verif::point("wait.checked", self.id.pid(), 0);
             notified.await;
         }
     }
@@ -359,7 +385,11 @@ impl ActorProperties {
 
     pub(crate) fn notify_stop_listener(&self) {
         self.wait_handler.notify_waiters();
+        #[cfg(ractor_verif)]
+        crate::verif::point("notify.waiters", self.id.pid(), 0);
         // Preserve one permit for a waiter created after the actor stopped.
         self.wait_handler.notify_one();
+        #[cfg(ractor_verif)]
+        crate::verif::point("notify.one", self.id.pid(), 0);
     }
 }
